@@ -56,7 +56,8 @@ SPEC = [
     (r"TryFrom<&\[u8\]>>::try_from$", r"call:expect", "both length checks above return Err unless bytes.len() == ELEMENT_BYTES, so the slice-to-array conversion cannot fail"),
     (r"StarkField::from_bytes_with_padding$", r"diverge:assert|call:resize|diverge:panic",
      "reached only from Context::to_elements / TraceInfo::to_elements with chunks shorter than ELEMENT_BYTES: modulus halves of the AIR's own field (verify compares the modulus first) and metadata chunks of ELEMENT_BYTES - 1 bytes; a chunk shorter than the element padded with zeros is below the modulus",
-     {"kind": "err-guard", "func": "winter_verifier::verify", "lhs": "get_modulus_le_bytes", "rel": "Ne", "rhs": "field_modulus_bytes"}),
+     [{"kind": "err-guard", "func": "winter_verifier::verify", "lhs": "get_modulus_le_bytes", "rel": "Ne", "rhs": "field_modulus_bytes"},
+      {"kind": "fact", "name": "c05.padding_chunks"}]),
     # ---- air::proof ---------------------------------------------------------------------------
     (r"Context as .*ToElements<E>>::to_elements$", r"call:split_at", "split_at(len / 2) with len / 2 <= len"),
     (r"Context::num_modulus_bits$", r"Overflow", "num_bits starts at 8 * len(modulus bytes) with len <= 255 (u8 length prefix) and loses at most 8 per byte visited"),
